@@ -13,59 +13,133 @@ import (
 
 // Engine c37: internal/config.expandEnvVars on the real process environment.
 //
-//	exp <text> [<key>=<value>]...   (hex)  -> ok <expanded>
+//	exp <text> [<key>=<value>]...   environment := exactly these bindings; -> ok <expanded text>
+//	reset [<key>=<value>]...        environment := exactly these bindings; -> ok          (starts a case)
+//	set <key>=<value>               os.Setenv                              -> ok
+//	unset <key>                     os.Unsetenv                            -> ok
+//	x <text>                        expand under the environment left by the earlier ops -> ok <expanded text>
 //
-// The process environment is cleared before every op and then holds exactly the listed bindings.
+// All fields hex.  The process environment is cleared by exp/reset, so nothing of the harness's own
+// environment is visible.
 func init() {
+	setAll := func(kvs []string) {
+		os.Clearenv()
+		for _, kv := range kvs {
+			p := strings.SplitN(kv, "=", 2)
+			if len(p) != 2 {
+				panic("c37: bad binding " + kv)
+			}
+			must(os.Setenv(string(unhexTok(p[0])), string(unhexTok(p[1]))))
+		}
+	}
 	register("c37", &Engine{
 		Run: func(line string) string {
 			f := fields(line)
-			if len(f) < 2 || f[0] != "exp" {
-				return "bad-op"
-			}
-			os.Clearenv()
-			for _, kv := range f[2:] {
-				p := strings.SplitN(kv, "=", 2)
-				if len(p) != 2 {
-					return "bad-op"
-				}
+			switch {
+			case f[0] == "exp" && len(f) >= 2:
+				setAll(f[2:])
+				return "ok " + hexTok([]byte(config.C37ExpandEnvVars(string(unhexTok(f[1])))))
+			case f[0] == "reset":
+				setAll(f[1:])
+				return "ok"
+			case f[0] == "set" && len(f) == 2:
+				p := strings.SplitN(f[1], "=", 2)
 				must(os.Setenv(string(unhexTok(p[0])), string(unhexTok(p[1]))))
+				return "ok"
+			case f[0] == "unset" && len(f) == 2:
+				must(os.Unsetenv(string(unhexTok(f[1]))))
+				return "ok"
+			case f[0] == "x" && len(f) == 2:
+				return "ok " + hexTok([]byte(config.C37ExpandEnvVars(string(unhexTok(f[1])))))
 			}
-			return "ok " + hexTok([]byte(config.C37ExpandEnvVars(string(unhexTok(f[1])))))
+			return "bad-op"
 		},
 		Gen: func(w *bufio.Writer, seed int64, tier string) {
 			r := newRng(seed)
-			n := 2500
+			n := 700
 			if tier == "thorough" {
-				n = 120000
+				n = 30000
 			}
+			okKey := func(k string) bool { return k != "" && !strings.ContainsAny(k, "=\x00") }
 			for i := 0; i < n; i++ {
-				text := c37Text(r, 1+r.intn(10))
-				fmt.Fprintf(w, "exp %s", hexTok([]byte(text)))
-				seen := map[string]bool{}
-				// names that occur in the text (between "${" and "}" / after "$"), plus the pool
-				var cands []string
-				for _, part := range strings.Split(text, "$") {
-					p := strings.TrimPrefix(part, "{")
-					for _, cut := range []string{"}", ":-", ":", "-", " "} {
-						if j := strings.Index(p, cut); j > 0 && r.chance(50) {
-							p = p[:j]
-						}
+				// one case: an initial environment, then expansions interleaved with changes to it
+				var texts []string
+				for j, m := 0, 1+r.intn(4); j < m; j++ {
+					texts = append(texts, c37Text(r, c37Size(r)))
+				}
+				var cands []string // names occurring in the texts, plus the pool
+				for _, text := range texts {
+					if len(text) > 4000 {
+						text = text[:4000]
 					}
-					cands = append(cands, p)
+					for _, part := range strings.Split(text, "$") {
+						p := strings.TrimPrefix(part, "{")
+						for _, cut := range []string{"}", ":-", ":", "-", " "} {
+							if j := strings.Index(p, cut); j > 0 && r.chance(50) {
+								p = p[:j]
+							}
+						}
+						cands = append(cands, p)
+					}
 				}
 				cands = append(cands, c37Names...)
+				if r.chance(5) { // long names around typical buffer sizes
+					ln := strings.Repeat("N", r.pick(255, 256, 257, 4095, 4096, 4097))
+					cands = append(cands, ln)
+					texts = append(texts, "a${"+ln+"}b$"+ln+" ${"+ln+":-d}")
+				}
+				fmt.Fprint(w, "reset")
+				seen := map[string]bool{}
 				for _, k := range cands {
-					if k == "" || strings.ContainsAny(k, "=\x00") || seen[k] || !r.chance(45) {
+					if !okKey(k) || seen[k] || !r.chance(45) {
 						continue
 					}
 					seen[k] = true
 					fmt.Fprintf(w, " %s=%s", hexTok([]byte(k)), hexTok([]byte(c37Value(r))))
 				}
 				fmt.Fprintln(w)
+				for _, text := range texts {
+					for c := r.intn(3); c > 0; c-- { // change the environment between expansions
+						k := cands[r.intn(len(cands))]
+						if !okKey(k) {
+							continue
+						}
+						if r.chance(35) {
+							fmt.Fprintf(w, "unset %s\n", hexTok([]byte(k)))
+						} else {
+							fmt.Fprintf(w, "set %s=%s\n", hexTok([]byte(k)), hexTok([]byte(c37Value(r))))
+						}
+					}
+					if r.chance(15) { // self-contained form (replaces the environment)
+						fmt.Fprintf(w, "exp %s", hexTok([]byte(text)))
+						for _, k := range cands {
+							if okKey(k) && r.chance(20) && !strings.Contains(k, " ") {
+								fmt.Fprintf(w, " %s=%s", hexTok([]byte(k)), hexTok([]byte(c37Value(r))))
+							}
+						}
+						fmt.Fprintln(w)
+					} else {
+						fmt.Fprintf(w, "x %s\n", hexTok([]byte(text)))
+					}
+				}
 			}
 		},
 	})
+}
+
+// c37Size: number of pieces of a text — mostly small, with a thin stream of large ones (texts of
+// tens of kilobytes with thousands of references).
+func c37Size(r *rng) int {
+	switch x := r.intn(1000); {
+	case x < 955:
+		return 1 + r.intn(10)
+	case x < 990:
+		return 100 + r.intn(600)
+	case x < 998:
+		return 2000 + r.intn(3000)
+	default:
+		return 20000
+	}
 }
 
 var c37Names = []string{"V", "W", "V1", "VAR", "X", "A", "b", "_", "_a9", "V:-d", "V W", "\xc3\xa9", "V:", "{V"}
@@ -94,6 +168,9 @@ func c37Text(r *rng, n int) string {
 
 // c37Value: environment values, many of which look like references themselves.
 func c37Value(r *rng) string {
+	if r.chance(2) { // large values around typical buffer sizes, themselves full of references
+		return strings.Repeat("${V}$W-", r.pick(255, 256, 257, 4095, 4096, 4097, 65535, 65536, 65537)/7+1)
+	}
 	switch r.intn(8) {
 	case 0:
 		return ""
